@@ -131,6 +131,12 @@ def gen_cases(rng, tier, scale):
              ('{{eq (m_ret_i n) -4}}', 'true'), ('{{len (m_ret_i i)}}', '0')]
     for i, (t, exp) in enumerate(fixed):
         cases.append(rcase(f'x{i}', t, DATA, pre=['macros', 'esc 1'], entry=4, kind='fixed', exp=exp, tags=['fixed']))
+    # a typed result of ANY JSON kind — null included — reaches a subexpression caller, in both modes
+    for st in (0, 1):
+        for i, (t, exp) in enumerate([('{{#if (m_ret_j z)}}T{{else}}F{{/if}}', 'F'), ('{{eq (m_ret_j z) null}}', 'true'), ('{{m_json (m_ret_j z)}}', 'json:n'),
+                                      ('{{m_null (m_ret_j z)}}', 'null:()'), ('{{m_json (m_ret_j a)}}|{{m_ret_i (m_ret_j i)}}', 'json:[u1,x78]|5'),
+                                      ('{{mkw k=(m_ret_j z)}}', 'kw:x6b=n')]):
+            cases.append(rcase(f'rj{st}_{i}', t, DATA, pre=['macros', 'probes', 'esc 1', f'strict {st}'], entry=4, kind='fixed', exp=exp, tags=['typed-null-result']))
     # **kwargs holds EVERY hash argument, also one bound to a path that resolves to nothing (as null), in both modes
     for st in (0, 1):
         for i, (t, exp) in enumerate([('{{mkw a=1 b=zz c=o.zz}}', 'kw:x61=u1,x62=n,x63=n'), ('{{mkw b=zz}}', 'kw:x62=n'), ('{{mkw z=z a=b}}', 'kw:x61=t,x7a=n'),
